@@ -135,7 +135,12 @@ struct fmtquill::formatter<Thrower>
   auto format(Thrower const& t, format_context& ctx) const
   {
     if (t.mode == 1) throw std::runtime_error("verif formatter failure");
-    if (t.mode == 2) throw 42;
+    if (t.mode == 2)
+    {
+      // part of the text is already in the output buffer when the formatter fails: none of it may reach a sink
+      fmtquill::format_to(ctx.out(), "{}:", t.id);
+      throw 42;
+    }
     return fmtquill::format_to(ctx.out(), "{}:", t.id);
   }
 };
